@@ -74,3 +74,14 @@ Proof.
                                  (L_exception_UnwindInfo_frame_register x <? 16) && (L_exception_UnwindInfo_frame_offset x <? 16))) as S.
   specialize (S ltac:(vm_compute; reflexivity) x Hx). cbv beta in S. lia.
 Qed.
+
+(* what each binder of the generated definitions stands for in the source (third audit, F2): a function that starts
+   reading another field or index changes coq/gen/Leaf.v only in these lists *)
+From Coq Require Import List String.
+Import ListNotations.
+Lemma leaf_reads_dirs :
+  L_exception_UnwindInfo_version_args = ["self.image.VersionFlags : u8"%string] /\
+  L_exception_UnwindInfo_flags_args = ["self.image.VersionFlags : u8"%string] /\
+  L_exception_UnwindInfo_frame_register_args = ["self.image.FrameRegisterOffset : u8"%string] /\
+  L_exception_UnwindInfo_frame_offset_args = ["self.image.FrameRegisterOffset : u8"%string].
+Proof. repeat split; reflexivity. Qed.
